@@ -397,6 +397,25 @@ fn output_predicate_datavalue(
     }
 }
 
+/// Outputs the subselectors of a complex selector as a comma separated list,
+/// subselectors that can not be serialised (and are skipped) do not leave a gap.
+fn output_subselectors(
+    selectors: &[Selector],
+    store: &AnnotationStore,
+    config: &WebAnnoConfig,
+    need_second_pass: &mut bool,
+    second_pass: bool,
+) -> String {
+    let mut items: Vec<String> = Vec::with_capacity(selectors.len());
+    for selector in selectors.iter() {
+        let item = output_selector(selector, store, config, true, need_second_pass, second_pass);
+        if !item.is_empty() {
+            items.push(item);
+        }
+    }
+    items.join(",")
+}
+
 fn output_selector(
     selector: &Selector,
     store: &AnnotationStore,
@@ -484,41 +503,17 @@ fn output_selector(
         }
         Selector::CompositeSelector(selectors) => {
             ann_out += "{ \"type\": \"http://www.w3.org/ns/oa#Composite\", \"items\": [";
-            for (i, selector) in selectors.iter().enumerate() {
-                ann_out += &format!(
-                    "{}",
-                    &output_selector(selector, store, config, true, need_second_pass, second_pass)
-                );
-                if i != selectors.len() - 1 {
-                    ann_out += ",";
-                }
-            }
+            ann_out += &output_subselectors(selectors, store, config, need_second_pass, second_pass);
             ann_out += " ]}";
         }
         Selector::MultiSelector(selectors) => {
             ann_out += "{ \"type\": \"http://www.w3.org/ns/oa#Independents\", \"items\": [";
-            for (i, selector) in selectors.iter().enumerate() {
-                ann_out += &format!(
-                    "{}",
-                    &output_selector(selector, store, config, true, need_second_pass, second_pass)
-                );
-                if i != selectors.len() - 1 {
-                    ann_out += ",";
-                }
-            }
+            ann_out += &output_subselectors(selectors, store, config, need_second_pass, second_pass);
             ann_out += " ]}";
         }
         Selector::DirectionalSelector(selectors) => {
             ann_out += "{ \"type\": \"http://www.w3.org/ns/oa#List\", \"items\": [";
-            for (i, selector) in selectors.iter().enumerate() {
-                ann_out += &format!(
-                    "{}",
-                    &output_selector(selector, store, config, true, need_second_pass, second_pass)
-                );
-                if i != selectors.len() - 1 {
-                    ann_out += ",";
-                }
-            }
+            ann_out += &output_subselectors(selectors, store, config, need_second_pass, second_pass);
             ann_out += " ]}";
         }
         Selector::DataKeySelector(..) | Selector::AnnotationDataSelector(..) => {
